@@ -255,6 +255,11 @@ impl<'a, G: AffineRepr> Iterator for AggregatedGensIter<'a, G> {
     type Item = &'a G;
 
     fn next(&mut self) -> Option<Self::Item> {
+        // An empty per-party view has no generators to list, for any number of parties.
+        if self.n == 0 {
+            return None;
+        }
+
         if self.gen_idx >= self.n {
             self.gen_idx = 0;
             self.party_idx += 1;
